@@ -214,8 +214,10 @@ def run(ctx):
     flag = [s_ for s_ in paths.stores(er) if s_["path"] == "embedded"]
     sets = [s_ for s_ in flag if s_["rhs"] is not None and er.constval(s_["rhs"]) == 1]
     clears = [s_ for s_ in flag if s_["rhs"] is not None and er.constval(s_["rhs"]) == 0]
+    # a flag declared with its cleared value (`int embedded = FALSE;`) is cleared there
+    clears += [{"node": v_, "rhs": er.ch(v_)[0]} for v_ in er.find("Var") if er.nodes[v_]["name"] == "embedded" and er.ch(v_) and er.k(er.ch(v_)[0]) != "Absent" and er.constval(er.ch(v_)[0]) == 0]
     okf = len(sets) == 1 and len(clears) == 1 and paths.guarded(er, sets[0]["node"], lambda fn, cc, pol: paths.cond_atoms(fn, cc, pol, subst=False) == ("subnode->data.ptr", False)) \
-        and all(paths.always_before(er, c, lambda e: e == clears[0]["node"]) for c in cmp_)
+        and all(paths.always_before(er, c, lambda e: e == clears[0]["node"] or (er.k(e) == "Decl" and clears[0]["node"] in er.ch(e))) for c in cmp_)
     ctx.check(j5, okf, key(er, "mark-seen"), er.where(er.root), "the stack scan does not record whether it passed a mark (flag cleared before the scan, set on a NULL entry)")
     for r in rec_ret:
         ctx.check(j5, paths.guarded(er, r, lambda fn, cc, pol: paths.cond_atoms(fn, cc, pol, subst=False) == ("embedded", False)), key(er, "no-mark-between"), er.where(r), "recursion to a rule below a mark on the stack is accepted: <s> = <b> w; <b> = y <s> | z; would be compiled to y* z w")
@@ -230,16 +232,42 @@ def run(ctx):
     forms = sorted(tuple(er.canon(x, subst=False) for x in er.args(c)) for c in fwd)
     want = sorted([("grammar", "atom", "lastnode", "grammar->nstate"), ("grammar", "atom", "lastnode", "grammar->nstate"), ("grammar", "atom", "lastnode", "subrule->entry")])
     ctx.check(j5, forms == want, key(er, "links"), er.where(er.root), "sequence links are %s" % forms)
-    for c in fwd:
-        tgt = er.canon(er.args(c)[3], subst=False)
-        # after the link, lastnode becomes the link's end (nstate, then nstate++ ; or subrule->exit)
-        nxt = [s for s in paths.stores(er) if s["path"] == "lastnode" and paths.same_block(er, s["node"], c) and paths.pos_of(er, s["node"])[1] > paths.pos_of(er, c)[1]]
-        wantn = "grammar->nstate" if tgt == "grammar->nstate" else "subrule->exit"
-        ok = len(nxt) == 1 and er.canon(nxt[0]["rhs"], subst=False) == wantn
-        if ok and tgt == "grammar->nstate":
-            inc = [s for s in paths.field_stores(er, "jsgf_s", "nstate") if paths.same_block(er, s["node"], c) and paths.pos_of(er, s["node"])[1] > paths.pos_of(er, nxt[0]["node"])[1]]
-            ok = len(inc) == 1 and inc[0]["op"] == "++"
-        ctx.check(j5, ok, key(er, "thread:%s@%d" % (tgt, er.line(c))), er.where(c), "after linking to `%s` the sequence does not continue from `%s` (and a fresh state is not consumed exactly once)" % (tgt, wantn))
+    # every link starts where the sequence stands, and the sequence then stands at the link's end: a fresh
+    # state consumed exactly once, or the exit of the expanded rule (one step of the atom loop, path by path)
+    from .. import symx, lin as _lin
+    aloops = [l for l in er.find("For") + er.find("While") if any(er.nodes[c].get("callee") == "jsgf_add_link" for c in er.calls(root=l))]
+    aloops = [l for l in aloops if not any(l in set(er.walk(o)) and l != o for o in aloops)]
+    thr = {"fresh": None, "subrule": None}
+    if len(aloops) == 1:
+        for pt in symx.loop_paths(er, aloops[0], P):
+            if pt.end != "next":
+                continue
+            cur = "lastnode"
+            last = None
+            nst = 0
+            okp = True
+            for ev_ in pt.events:
+                if ev_[0] == "store" and ev_[1] == "lastnode":
+                    cur = _lin.p_str(ev_[2])
+                elif ev_[0] == "store" and ev_[1] == "grammar->nstate":
+                    nst += 1
+                    okp = okp and ev_[2] == _lin.p_add(_lin.p_atom("grammar->nstate"), _lin.p_const(1))
+                elif ev_[0] == "call" and ev_[1] == "jsgf_add_link":
+                    okp = okp and ev_[2][2] == cur
+                    last = ev_[2][3]
+            if last is None:
+                continue
+            if last == "grammar->nstate":
+                kind = "fresh"
+                okp = okp and cur == "grammar->nstate" and nst == 1
+            elif last.endswith("->entry"):
+                kind = "subrule"
+                okp = okp and cur == last[:-len("->entry")] + "->exit" and nst == 0
+            else:
+                kind, okp = "fresh", False
+            thr[kind] = okp if thr[kind] is None else (thr[kind] and okp)
+    ctx.check(j5, thr["fresh"] is True, key(er, "thread:grammar->nstate"), er.where(er.root), "after linking to a fresh state the sequence does not continue from that state (or the state is not consumed exactly once)")
+    ctx.check(j5, thr["subrule"] is True, key(er, "thread:subrule->entry"), er.where(er.root), "after linking to a rule's entry the sequence does not continue from that rule's exit")
     # sub-expansion precedes its link
     exs = er.calls("expand_rule")
     sl = [c for c in fwd if er.canon(er.args(c)[3], subst=False) == "subrule->entry"]
@@ -261,39 +289,108 @@ def run(ctx):
     # ---- J4 generated rules -------------------------------------------------------------------------------
     j4 = ctx.rule("PROV.J4-internal-rules", "the rules generated for * / + and optionals are right-recursive: the recursion atom is the last atom of its alternative; optional = <NULL> | expression", floor=4)
     kl = fns["jsgf_kleene_new"]
-    adds = [c for c in kl.calls("glist_add_ptr")]
-    seq = [(kl.canon(kl.args(c)[0], subst=False), kl.canon(kl.args(c)[1], subst=False)) for c in sorted(adds, key=lambda c: paths.pos_of(kl, c))]
-    # glist_add_ptr prepends: the atom added last comes first
-    tail = [x for x in seq if x[1] in ("rule_atom", "atom")]
-    ctx.check(j4, tail == [("0", "rule_atom"), ("rhs->atoms", "atom")], key(kl, "recursion-last"), kl.where(kl.root), "closure alternative is assembled as %s: the list prepends, so the recursion atom must be added first to end up last" % tail)
-    first = sorted(kl.canon(kl.args(c)[1], subst=False) for c in adds if kl.canon(kl.args(c)[1], subst=False).startswith("jsgf_atom_new("))
-    ctx.check(j4, first == ['jsgf_atom_new("<NULL>", 1)', "jsgf_atom_new(atom->name, 1)"], key(kl, "base-case"), kl.where(kl.root), "closure base alternatives are %s" % first)
-    for c in adds:
-        v = kl.canon(kl.args(c)[1], subst=False)
-        if v == 'jsgf_atom_new("<NULL>", 1)':
-            ctx.check(j4, paths.guarded(kl, c, lambda fn, cc, pol: paths.cond_atoms(fn, cc, pol, subst=False) == ("plus", False)), key(kl, "star-null"), kl.where(c), "the empty alternative is not the base case of `*`")
-    ifs = [kl.canon(kl.ch(i)[0], subst=False) for i in kl.find("If")]
-    ctx.check(j4, ifs == ["plus"], key(kl, "base-selector"), kl.where(kl.root), "the base alternative is selected by %s, expected exactly `plus`" % ifs)
-    al = [s for s in paths.stores(kl) if s["path"] == "rule->rhs->alt"]
-    ctx.check(j4, len(al) == 1 and kl.canon(al[0]["rhs"], subst=False) == "rhs", key(kl, "alt"), kl.where(kl.root), "recursive alternative is not attached to the generated rule")
-    ra = [s for s in paths.stores(kl) if s["path"] == "rule_atom"]
-    ctx.check(j4, len(ra) == 1 and kl.canon(ra[0]["rhs"], subst=False) == "jsgf_atom_new(rule->name, 1)", key(kl, "self-reference"), kl.where(kl.root), "recursion atom does not name the generated rule itself")
+    # the generated rule as the stores of each path build it (symx.run_paths): names of temporaries, the
+    # order of independent statements and `c ? a : b` vs. if / else do not matter
+    from .. import symx, lin as _lin
+
+    def objs(pt):
+        """stores of the path with every allocation renamed NEW1, NEW2, ... in order of appearance"""
+        names = {}
+
+        def ren(t):
+            def r(m):
+                return names.setdefault(m.group(0), "NEW%d" % (len(names) + 1))
+            return re.sub(r'__ckd_calloc__\(1, \d+, "[^"]*", \d+\)', r, t)
+        return [(ren(pth), ren(_lin.p_str(v_))) for (pth, v_, n_) in pt.stores], (ren(_lin.p_str(pt.ret)) if pt.ret is not None else None)
+    bad4 = {}
+    seenp = set()
+    for pt in symx.run_paths(kl, P):
+        plus = pt.atoms.get(("nz", "plus"))
+        seenp.add(plus)
+        st_, ret = objs(pt)
+        fin = {}
+        for pth, v_ in st_:
+            fin[pth] = v_
+        RULE = "jsgf_define_rule(jsgf, 0, NEW1, 0)"
+        SELF = "jsgf_atom_new((%s)->name, 1)" % RULE
+        base = fin.get("(NEW1)->atoms")
+        wantbase = "glist_add_ptr(0, jsgf_atom_new(%s, 1))" % ("atom->name" if plus else '"<NULL>"')
+        if plus is None:
+            bad4["base-selector"] = "the base alternative does not depend on `plus`"
+        elif base != wantbase:
+            bad4["base-case" if plus else "star-null"] = "base alternative of `%s` is %s, expected %s" % ("+" if plus else "*", base, wantbase)
+        if fin.get("(NEW2)->atoms") != "glist_add_ptr(glist_add_ptr(0, %s), atom)" % SELF:
+            if fin.get("(NEW2)->atoms") and SELF not in fin.get("(NEW2)->atoms"):
+                bad4["self-reference"] = "recursion atom does not name the generated rule itself: %s" % fin.get("(NEW2)->atoms")
+            else:
+                bad4["recursion-last"] = "closure alternative is assembled as %s: the list prepends, so the recursion atom must be added first to end up last" % fin.get("(NEW2)->atoms")
+        if fin.get("(%s)->rhs->alt" % RULE) != "NEW2":
+            bad4["alt"] = "recursive alternative is not attached to the generated rule"
+        if ret != SELF:
+            bad4["self-reference"] = "the atom handed back is %s, not a reference to the generated rule" % ret
+    if seenp != {True, False}:
+        bad4["base-selector"] = "expected a `+` and a `*` case"
+    for k_ in ("recursion-last", "base-case", "star-null", "base-selector", "alt", "self-reference"):
+        ctx.check(j4, k_ not in bad4, key(kl, k_), kl.where(kl.root), bad4.get(k_, ""))
     op = fns["jsgf_optional_new"]
-    st = {s["path"]: op.canon(s["rhs"], subst=False) for s in paths.stores(op)}
-    ctx.check(j4, st.get("rhs->alt") == "exp" and st.get("rhs->atoms") == "glist_add_ptr(0, atom)", key(op, "shape"), op.where(op.root), "optional is built as %s" % st)
+    okop, shape = True, None
+    for pt in symx.run_paths(op, P):
+        st_, ret = objs(pt)
+        fin = dict(st_)
+        shape = (fin.get("(NEW1)->alt"), fin.get("(NEW1)->atoms"), ret)
+        okop = okop and shape == ("exp", 'glist_add_ptr(0, jsgf_atom_new("<NULL>", 1))', "jsgf_define_rule(jsgf, 0, NEW1, 0)")
+    ctx.check(j4, okop and shape is not None, key(op, "shape"), op.where(op.root), "optional is built as %s" % (shape,))
 
     # ---- J6 links -> arcs -----------------------------------------------------------------------------------------
     j6 = ctx.rule("PROV.J6-arcs", "the builder turns rule-reference links into null arcs and token links into word arcs between the same states with the atom's weight, joins into null arcs of probability 1, uses the rule's entry/exit as start/final state and sizes the grammar by the states consumed", floor=6)
-    na = bi.calls("fsg_model_null_trans_add")
-    ta = bi.calls("fsg_model_trans_add")
-    forms = sorted(tuple(bi.canon(x, subst=False) for x in bi.args(c)) for c in na)
-    ctx.check(j6, forms == sorted([("fsg", "link->from", "link->to", "0"), ("fsg", "link->from", "link->to", "logmath_log(lmath, link->atom->weight)")]), key(bi, "null-arcs"), bi.where(bi.root), "null arcs are added as %s" % forms)
-    forms = [tuple(bi.canon(x, subst=False) for x in bi.args(c)) for c in ta]
-    ctx.check(j6, forms == [("fsg", "link->from", "link->to", "logmath_log(lmath, link->atom->weight)", "wid")], key(bi, "word-arcs"), bi.where(bi.root), "word arcs are added as %s" % forms)
-    wid = [v for v in bi.find("Var") if bi.nodes[v]["name"] == "wid"]
-    ctx.check(j6, len(wid) == 1 and bi.canon(bi.ch(wid[0])[0], subst=False) == "fsg_model_word_add(fsg, link->atom->name)", key(bi, "word"), bi.where(bi.root), "word id is not that of the link's own token")
-    for c in ta:
-        ctx.check(j6, paths.guarded(bi, c, lambda fn, cc, pol: paths.cond_atoms(fn, cc, pol, subst=False) == ("link->atom", True)) and paths.guarded(bi, c, lambda fn, cc, pol: (not pol) and "link->atom->name" in fn.canon(cc, subst=False)), key(bi, "token-branch"), bi.where(c), "word arc is not under (atom present && not a rule reference)")
+    # the loop over the links, path by path (symx.loop_paths): one arc per link, of the kind its atom asks for
+    from .. import symx, lin as _lin
+    bad6 = {}
+    kinds = {"rule": 0, "token": 0, "join": 0}
+    arc_loops = [l for l in bi.find("For") + bi.find("While") if any(bi.nodes[c].get("callee") in ("fsg_model_null_trans_add", "fsg_model_trans_add") for c in bi.calls(root=l))]
+    if len(arc_loops) != 1:
+        bad6["null-arcs"] = "expected one loop turning links into arcs (found %d)" % len(arc_loops)
+    else:
+        for pt in symx.loop_paths(bi, arc_loops[0], P):
+            if pt.end != "next":
+                continue
+            lk = [v_ for (pth, v_, n_) in pt.stores if pth == "link"]
+            L = _lin.p_str(lk[0]) if lk else None
+            if L is None:
+                # the link may be used without a variable of that name: take it from the arc's source state
+                arcs0 = [c_ for c_ in pt.calls if c_[0] in ("fsg_model_null_trans_add", "fsg_model_trans_add")]
+                if arcs0 and arcs0[0][1][1].endswith("->from"):
+                    L = arcs0[0][1][1][:-len("->from")]
+            if L is None:
+                bad6["null-arcs"] = "a link is passed over without an arc"
+                continue
+            hasatom = pt.atoms.get(("nz", "%s->atom" % L))
+            isrule = pt.atoms.get(("==", "60", "%s->atom->name[0]" % L))
+            arcs = [c_ for c_ in pt.calls if c_[0] in ("fsg_model_null_trans_add", "fsg_model_trans_add", "fsg_model_tag_trans_add")]
+            W = "logmath_log(lmath, %s->atom->weight)" % L
+            if hasatom is None:
+                bad6["token-branch"] = "a link's atom is used without testing whether it has one"
+            elif hasatom is False:
+                kinds["join"] += 1
+                if [(c_[0], c_[1]) for c_ in arcs] != [("fsg_model_null_trans_add", ["fsg", "%s->from" % L, "%s->to" % L, "0"])]:
+                    bad6["null-arcs"] = "a link without atom becomes %s, expected a null arc of probability 1 between its states" % [(c_[0], c_[1][1:]) for c_ in arcs]
+            elif isrule is None:
+                bad6["token-branch"] = "word arc is not under (atom present && not a rule reference)"
+            elif isrule:
+                kinds["rule"] += 1
+                if [(c_[0], c_[1]) for c_ in arcs] != [("fsg_model_null_trans_add", ["fsg", "%s->from" % L, "%s->to" % L, W])]:
+                    bad6["null-arcs"] = "a rule-reference link becomes %s, expected a null arc with the atom's weight between its states" % [(c_[0], c_[1][1:]) for c_ in arcs]
+            else:
+                kinds["token"] += 1
+                WID = "fsg_model_word_add(fsg, %s->atom->name)" % L
+                if [c_[0] for c_ in arcs] != ["fsg_model_trans_add"] or arcs[0][1][:4] != ["fsg", "%s->from" % L, "%s->to" % L, W]:
+                    bad6["word-arcs"] = "a token link becomes %s, expected a word arc with the atom's weight between its states" % [(c_[0], c_[1][1:]) for c_ in arcs]
+                elif arcs[0][1][4] != WID:
+                    bad6["word"] = "word id is %s, not that of the link's own token" % arcs[0][1][4]
+        if not all(kinds.values()) and not bad6:
+            bad6["token-branch"] = "expected join, rule-reference and token links to be told apart (%s)" % kinds
+    for k_ in ("null-arcs", "word-arcs", "word", "token-branch"):
+        ctx.check(j6, k_ not in bad6, key(bi, k_), bi.where(bi.root), bad6.get(k_, ""))
     st = {s["path"]: bi.canon(s["rhs"], subst=False) for s in paths.stores(bi) if s["path"] in ("fsg->start_state", "fsg->final_state")}
     ctx.check(j6, st == {"fsg->start_state": "rule->entry", "fsg->final_state": "rule->exit"}, key(bi, "start-final"), bi.where(bi.root), "start/final states are %s" % st)
     ini = bi.calls("fsg_model_init")
